@@ -468,30 +468,40 @@ theorem annular_detector_passes_offset (o : Rat × Rat) : annularDetectOffset o 
 (`inner … inner + nbins·step`) the radial sampling that `polar_binning` bins with equals `step`. -/
 theorem flexible_bin_width (inner outer step : Rat) (hn : 0 < flexNbins inner outer step) :
     polarRadialSampling (flexLimits inner outer step).2.1 (flexLimits inner outer step).2.2 (flexNbins inner outer step : Rat) = step := by
-  unfold polarRadialSampling flexLimits flexLimitsRange
-  unfold flexNbins at hn ⊢
-  have : ((flexNbins inner outer step : Int) : Rat) ≠ 0 := by
+  have hne : ((flexNbins inner outer step : Int) : Rat) ≠ 0 := by
     have : (0 : Rat) < ((flexNbins inner outer step : Int) : Rat) := by exact_mod_cast hn
     exact ne_of_gt this
-  simp only
+  have e2 : (flexLimits inner outer step).2.2 = inner + ((flexNbins inner outer step : Int) : Rat) * step := by
+    unfold flexLimits flexLimitsRange flexNbins; rfl
+  have e1 : (flexLimits inner outer step).2.1 = inner := by
+    unfold flexLimits flexLimitsRange; rfl
+  unfold polarRadialSampling
+  rw [e1, e2]
   field_simp
   ring
 
-/-- The number of bins is the number of whole steps inside `⌊outer − inner⌋`, and the binned range stays inside
-`[inner, outer]`. -/
+/-- The number of bins is the number of whole steps between the limits (with the code's rounding tolerance `1e-7`
+on the ratio), it is never negative, at least one bin exists as soon as one step fits, and the binned range stays
+inside `[inner, outer]` up to `step·1e-7`. -/
 theorem flexible_range_inside (inner outer step : Rat) (hs : 0 < step) (hio : inner ≤ outer) :
-    0 ≤ flexNbins inner outer step ∧ (flexLimits inner outer step).2.2 ≤ outer := by
+    0 ≤ flexNbins inner outer step ∧ (step ≤ outer - inner → 1 ≤ flexNbins inner outer step) ∧
+    (flexLimits inner outer step).2.2 ≤ outer + step / 10000000 := by
   unfold flexLimits flexLimitsRange flexNbins pyInt pyFloor
-  have hfl : (0 : Int) ≤ (outer - inner).floor := Rat.le_floor_iff.mpr (by simp; linarith)
-  have hq : (0 : Rat) ≤ ((outer - inner).floor : Rat) / step := div_nonneg (by exact_mod_cast hfl) hs.le
-  simp only [if_pos hq]
-  constructor
-  · exact Rat.le_floor_iff.mpr (by simpa using hq)
-  · have h1 : (((((outer - inner).floor : Rat) / step).floor : Int) : Rat) ≤ ((outer - inner).floor : Rat) / step := Rat.floor_le _
-    have h2 : ((outer - inner).floor : Rat) ≤ outer - inner := Rat.floor_le _
-    have h3 : (((((outer - inner).floor : Rat) / step).floor : Int) : Rat) * step ≤ ((outer - inner).floor : Rat) := by
-      calc _ ≤ ((outer - inner).floor : Rat) / step * step := mul_le_mul_of_nonneg_right h1 hs.le
-        _ = _ := by field_simp
+  have hq : (0 : Rat) ≤ (outer - inner) / step + 1 / 10000000 := by
+    have : 0 ≤ (outer - inner) / step := div_nonneg (by linarith) hs.le
+    linarith
+  have hfl : (0 : Int) ≤ ((outer - inner) / step + 1 / 10000000).floor := Rat.le_floor_iff.mpr (by simpa using hq)
+  have hcast : (0 : Rat) ≤ ((((outer - inner) / step + 1 / 10000000).floor : Int) : Rat) := by exact_mod_cast hfl
+  simp only [if_pos hcast, Rat.floor_intCast]
+  refine ⟨hfl, ?_, ?_⟩
+  · intro h1
+    apply Rat.le_floor_iff.mpr
+    have : (1 : Rat) ≤ (outer - inner) / step := by rw [le_div_iff₀ hs]; linarith
+    push_cast; linarith
+  · have h1 : ((((outer - inner) / step + 1 / 10000000).floor : Int) : Rat) ≤ (outer - inner) / step + 1 / 10000000 := Rat.floor_le _
+    have h3 := mul_le_mul_of_nonneg_right h1 hs.le
+    have e : ((outer - inner) / step + 1 / 10000000) * step = (outer - inner) + step / 10000000 := by field_simp
+    rw [e] at h3
     linarith
 
 /-- **FlexibleAnnularDetector followed by `integrate_radial(a, b)` equals `AnnularDetector(a, b)`** for limits on
@@ -520,6 +530,7 @@ example : annularSum ⟨3, 3, 1, 1, false⟩ 0 2 (fun k => (k : Int) + 1) = 45 :
 example : annularSum ⟨3, 3, 1, 1, false⟩ 0 1 (fun k => (k : Int) + 1)
     + annularSum ⟨3, 3, 1, 1, false⟩ 1 2 (fun k => (k : Int) + 1) = 45 := by decide +kernel
 example : flexLimits 4 24 3 = (6, 4, 22) := by decide +kernel
+example : flexLimits 4 (13/2) (5/2) = (1, 4, 13/2) := by decide +kernel
 example : polarSums ⟨3, 3, 1, 1, false⟩ 0 2 2 2 (fun k => (k : Int) + 1) = .ok [1, 0, 19, 25] := by decide +kernel
 
 end AbtemVerif.Props.C12
